@@ -128,7 +128,15 @@ func (s *Service) proxyToSingleEndpoint(ctx context.Context, w http.ResponseWrit
 	stats.FirstDataMs = time.Since(stats.StartTime).Milliseconds()
 
 	buffer := s.bufferPool.Get()
-	defer s.bufferPool.Put(buffer)
+	// the buffer only goes back to the pool when no read can still be filling it: a stream that
+	// ends in a read timeout or a cancellation leaves its last body.Read behind (performTimedRead
+	// cannot interrupt it), and that read would write into whichever request gets the buffer next
+	recycleBuffer := false
+	defer func() {
+		if recycleBuffer {
+			s.bufferPool.Put(buffer)
+		}
+	}()
 
 	// Separate client and upstream contexts for proper cancellation handling
 	upstreamCtx := ctx
@@ -139,6 +147,7 @@ func (s *Service) proxyToSingleEndpoint(ctx context.Context, w http.ResponseWrit
 	// Stream with timeout protection - don't let slow clients hang forever
 	// Use r.Context() for client context and upstreamCtx for upstream context
 	bytesWritten, lastChunk, streamErr := s.streamResponseWithTimeout(r.Context(), upstreamCtx, w, resp, *buffer, rlog)
+	recycleBuffer = streamErr == nil
 	stats.StreamingMs = time.Since(streamStart).Milliseconds()
 	stats.TotalBytes = bytesWritten
 
